@@ -326,14 +326,9 @@ impl<T: Qcow2IoOps> Qcow2Dev<T> {
                         mapping.clone(),
                         info.cluster_bits() as u32,
                     );
-                    match l2_e.compressed_range(info.cluster_bits() as u32) {
-                        Some((off, length)) => {
-                            let start = info.cluster_round_down(off);
-                            let end = info.cluster_round_down(off + (length as u64));
-
-                            let cnt = (((end - start) as usize) >> info.cluster_bits()) + 1;
-                            self.free_clusters(start, cnt).await?
-                        }
+                    // only the clusters which hold bytes of the compressed data
+                    match l2_e.allocation(info.cluster_bits() as u32) {
+                        Some((start, cnt)) => self.free_clusters(start, cnt).await?,
                         None => {
                             eprintln!("compressed clusters leak caused by wrong mapping")
                         }
